@@ -236,7 +236,7 @@ func keyDiag(s *spec.Spec, diag string) string {
 	classes := map[string]bool{}
 	msg = numRe.ReplaceAllString(msg, "N")
 	msg = identRe.ReplaceAllStringFunc(msg, func(id string) string {
-		if id == "N" || compilerWords[strings.ToLower(id)] {
+		if id == "N" || compilerWords[id] {
 			return id
 		}
 		return abstractIdent(id, names, classes)
